@@ -99,13 +99,16 @@ def writes(L, p):
 def relranks_with_ep(f, L, names):
     """all relative ranks paired with an en-passant file into a square, per function"""
     out = {}
+    from .names import names as role_names
+    RN = role_names(f)
+    heavy = set(RN.generators.values()) | {RN.roster, B + "::is_legal", B + "::generate_moves_for", B + "::generate_moves"}
     for name in names:
         b = f.bodies.get(name)
         if b is None:
             continue
         cg = {"IN_CHECK": sym.FALSE} if "IN_CHECK" in b.j["generics"] else {}
         try:
-            ps = sym.SymExec(f, b, cgen=cg, max_paths=50000, inline=lambda n: False if n.endswith("_legals") or n.endswith("is_legal") else None).run()
+            ps = sym.SymExec(f, b, cgen=cg, max_paths=50000, inline=lambda n: False if n in heavy else None).run()
         except sym.PathLimit:
             continue
         found = set()
@@ -256,7 +259,7 @@ def run(ctx):
     # keep the outermost ones (called from from_fen directly)
     direct = {callee_name(t_) for bb_, t_ in f.need(B + "::from_fen").calls()}
     top = [k for k in top if k in direct] or top
-    pb = f.need(top[0]) if top else f.need(B + "::parse_board")
+    pb = f.need(top[0]) if top else f.need(g.stage_for(B + "::from_fen", "placement"))
     helpers = set(board_stages) - {pb.key}
     pps = sym.SymExec(f, pb, inline=lambda n: False if n in g.W else (True if n in helpers else None), max_paths=100000).run()
     nplace = 0
@@ -425,7 +428,7 @@ def run(ctx):
         hvflag = [c for c in p.conds if c[0][0] == "hv"]
         ctx.check(any(c[1] == 0 for c in hvflag), "writer:dash-iff-nothing-written", "`-` for the castling field is not conditional on nothing having been written", where)
     # reader
-    cb = f.need(B + "::parse_castle_rights")
+    cb = f.need(g.stage_for(B + "::from_fen", "castling"))
     cps = sym.SymExec(f, cb, inline=lambda n: False if n in g.W else None, peel=True, count_next=True, max_paths=200000).run()
     plain = {}
     shred = 0
@@ -492,8 +495,11 @@ def run(ctx):
     ctx.check(shred >= 2, "reader:shredder-paths", "no Shredder-FEN castling paths found", loc(cb))
     # ------------------------------------------------------------------ en-passant rank everywhere
     ctx.rule("en-passant-rank-agreement")
-    names = [DISPLAY, B + "::parse_en_passant", gatemod.BUILDER + "::add_en_passant", B + "::en_passant_is_valid", B + "::add_pawn_legals",
-             B + "::same_position::effective_ep"] + [k for k in f.bodies if f.bodies[k].kind == "Closure" and
+    from .names import names as role_names
+    RN = role_names(f)
+    ep_validator, pawn_gen = g.validator("ep"), RN.generators["Pawn"]
+    names = [DISPLAY, g.stage_for(B + "::from_fen", "ep"), g.stage_for(gatemod.BUILDER + "::build", "ep"), ep_validator, pawn_gen,
+             RN.effective_ep] + [k for k in f.bodies if f.bodies[k].kind == "Closure" and
                                                        (k.startswith(gatemod.BUILDER + "::from_board::") or k.startswith(B + "::play_unchecked::"))]
     rr = relranks_with_ep(f, L, names)
     ctx.note("relative ranks paired with the en-passant file: %s" % {k: sorted(v) for k, v in rr.items()})
@@ -505,11 +511,11 @@ def run(ctx):
     ctx.check(len(canonical) >= 6, "ep-rank:sites", "fewer than six sites convert the en-passant file with the canonical rank (6th relative to the side to move): %s" % target,
               sample={"sites": sorted(canonical)})
     for k, v in target.items():
-        if k in ("en_passant_is_valid", "add_pawn_legals"):
+        if k in (ep_validator.rsplit("::", 1)[-1], pawn_gen.rsplit("::", 1)[-1]):
             continue            # these also name the origin / victim squares
         ctx.check(v == {5}, "ep-rank:%s" % k, "%s pairs the en-passant file with relative rank(s) %s, not only the 6th relative to the side to move" % (k, sorted(v)))
     # parse: set only under the rank guard
-    eb = f.need(B + "::parse_en_passant")
+    eb = f.need(g.stage_for(B + "::from_fen", "ep"))
     eps = sym.SymExec(f, eb, inline=lambda n: False if n in g.W else None).run()
     for p in eps:
         for e in p.events:
@@ -526,5 +532,5 @@ def run(ctx):
     c10.run(ctx)
     # parsing back what was formatted succeeds only if the validators accept every board the library hands out:
     # a validator stricter than the property's list (C06 owns the equivalence rule) rejects reachable positions
-    c06.check_validators(ctx, f, L)
+    c06.check_validators(ctx, f, L, g)
     ctx.explanation = expl
